@@ -368,4 +368,346 @@ Section Proofs.
     - rewrite (proj2 (G3 _)), (proj2 (G2 _)), (proj2 (G _)). reflexivity.
   Qed.
 
+  (* ---------------------------------------------------------------- mutators *)
+  Definition body (c : cls) (ch : Z) : bool := mem (ranges c) ch || cats_in (cats c) ch.
+
+  Lemma top_in_body c ch : top_in c ch = xorb (neg c) (body c ch).
+  Proof. reflexivity. Qed.
+
+  (* the "anything" flag is only ever set together with the full range *)
+  Definition any_inv (c : cls) : Prop := anything c = true -> ranges c = [(0, max_rune)].
+
+  Lemma any_inv_body c ch : any_inv c -> anything c = true -> valid_rune ch -> body c ch = true.
+  Proof.
+    intros Hi Ha [H1 H2]. unfold body. rewrite (Hi Ha). unfold mem, in_range; cbn [existsb fst snd].
+    replace ((0 <=? ch) && (ch <=? max_rune)) with true by lia. reflexivity.
+  Qed.
+
+  Lemma cats_in_app l1 l2 ch : cats_in (l1 ++ l2) ch = cats_in l1 ch || cats_in l2 ch.
+  Proof. unfold cats_in. apply existsb_app. Qed.
+
+  Lemma cats_in_cons k l ch : cats_in (k :: l) ch = cat_accepts k ch || cats_in l ch.
+  Proof. reflexivity. Qed.
+
+  Lemma find_cat_some name l b : find_cat name l = Some b -> In (b, name) l.
+  Proof.
+    induction l as [|[ng n] t IH]; cbn; [discriminate|].
+    destruct (n =? name) eqn:E; [|auto]. intros H; injection H as ->. left. f_equal. lia.
+  Qed.
+
+  Lemma cats_in_In k l ch : In k l -> cat_accepts k ch = true -> cats_in l ch = true.
+  Proof. intros Hin Ha. unfold cats_in. apply existsb_exists. exists k; auto. Qed.
+
+  (* what addCategories leaves alone *)
+  Lemma add_categories_loop_shape l : forall c,
+    sub (add_categories_loop c l) = sub c /\ ascii (add_categories_loop c l) = ascii c /\
+    neg (add_categories_loop c l) = neg c /\
+    (wf_ranges (ranges c) -> wf_ranges (ranges (add_categories_loop c l))) /\
+    (any_inv c -> any_inv (add_categories_loop c l)).
+  Proof.
+    induction l as [|[ng name] t IH]; intros c; cbn [add_categories_loop]; [tauto|].
+    destruct (find_cat name (cats c)) as [ng2|].
+    - destruct (Bool.eqb ng ng2); [apply IH|].
+      unfold make_anything; cbn. repeat split; auto.
+      intros _. apply wf_single; unfold max_rune; lia.
+    - destruct (IH (set_cats c (cats c ++ [(ng, name)]))) as (A & B & C & D & E). cbn in *. tauto.
+  Qed.
+
+  Lemma add_categories_loop_top l : forall c ch, valid_rune ch ->
+    top_in (add_categories_loop c l) ch = xorb (neg c) (body c ch || cats_in l ch).
+  Proof.
+    induction l as [|[ng name] t IH]; intros c ch Hv; cbn [add_categories_loop].
+    - unfold cats_in; cbn. rewrite orb_false_r. reflexivity.
+    - rewrite cats_in_cons.
+      destruct (find_cat name (cats c)) as [ng2|] eqn:Ef.
+      + apply find_cat_some in Ef.
+        destruct (Bool.eqb ng ng2) eqn:Eb.
+        * apply Bool.eqb_prop in Eb. subst ng2. rewrite IH by auto. f_equal.
+          destruct (cat_accepts (ng, name) ch) eqn:Ea; [|reflexivity].
+          unfold body. rewrite (cats_in_In _ _ _ Ef Ea). rewrite !orb_true_r. reflexivity.
+        * rewrite make_anything_top by auto.
+          assert (Hb : cats_in (cats c) ch || cat_accepts (ng, name) ch = true).
+          { destruct (cat_accepts (ng, name) ch) eqn:Ea; [apply orb_true_r|].
+            rewrite (cats_in_In _ _ ch Ef); [reflexivity|].
+            unfold cat_accepts in *; cbn [fst snd] in *. destruct ng, ng2, (cat_in name ch); cbn in *; congruence. }
+          unfold body.
+          destruct (cats_in (cats c) ch), (cat_accepts (ng, name) ch); cbn in Hb; try discriminate;
+            rewrite ?orb_true_r; cbn; destruct (neg c); reflexivity.
+      + rewrite IH by auto. cbn [neg set_cats]. f_equal. unfold body; cbn [ranges cats set_cats].
+        rewrite cats_in_app. rewrite cats_in_cons. unfold cats_in at 3; cbn [existsb].
+        rewrite orb_false_r. rewrite !orb_assoc. reflexivity.
+  Qed.
+
+  (* add_categories_union (with "X and not-X => anything") *)
+  Lemma add_categories_top c l ch : any_inv c -> valid_rune ch ->
+    top_in (add_categories c l) ch = xorb (neg c) (body c ch || cats_in l ch).
+  Proof.
+    intros Hi Hv. unfold add_categories. destruct (anything c) eqn:Ea.
+    - rewrite top_in_body. rewrite (any_inv_body c ch Hi Ea Hv). reflexivity.
+    - apply add_categories_loop_top; auto.
+  Qed.
+
+  Lemma add_categories_shape c l :
+    sub (add_categories c l) = sub c /\ ascii (add_categories c l) = ascii c /\
+    neg (add_categories c l) = neg c /\
+    (wf_ranges (ranges c) -> wf_ranges (ranges (add_categories c l))) /\
+    (any_inv c -> any_inv (add_categories c l)).
+  Proof. unfold add_categories. destruct (anything c); [tauto|apply add_categories_loop_shape]. Qed.
+
+  Lemma wf_ranges_app l1 l2 : wf_ranges l1 -> wf_ranges l2 -> wf_ranges (l1 ++ l2).
+  Proof. unfold wf_ranges. intros. apply Forall_app; auto. Qed.
+
+  (* canonicalize keeps the anything invariant *)
+  Lemma nf_any_inv c : any_inv c -> wf_ranges (ranges c) ->
+    any_inv (normal_form_3 cat_in (normal_form_2 (normal_form_1 c))).
+  Proof.
+    intros Hi Hw.
+    assert (G1 : any_inv (normal_form_1 c)).
+    { unfold normal_form_1. destruct (negb (neg c) && no_sub c && no_cats c); [|exact Hi].
+      destruct (ranges c) as [|[a0 b0] [|[a1 b1] [|]]] eqn:Er; try exact Hi.
+      - destruct (a0 =? 0) eqn:E0.
+        + destruct (b0 =? max_rune - 1) eqn:E1; [|exact Hi].
+          intros Ha. cbn in Ha. specialize (Hi Ha). rewrite Er in Hi. injection Hi as -> ->. unfold max_rune in *. lia.
+        + destruct (a0 =? 1) eqn:E1; [|exact Hi]. destruct (b0 >=? max_rune); [|exact Hi].
+          intros Ha. cbn in Ha. specialize (Hi Ha). rewrite Er in Hi. injection Hi as -> ->. lia.
+      - destruct ((a0 =? 0) && (b1 >=? max_rune) && (b0 <? a1 - 1)); [|exact Hi].
+        intros Ha. cbn in Ha. specialize (Hi Ha). rewrite Er in Hi. discriminate. }
+    set (c1 := normal_form_1 c) in *.
+    assert (G2 : any_inv (normal_form_2 c1)).
+    { unfold normal_form_2. destruct (negb (neg c1) && no_sub c1); [|exact G1].
+      destruct (ranges c1) as [|[a0 b0] [|]] eqn:Er; try exact G1.
+      destruct ((a0 =? 0) && (b0 >=? max_rune)); [|exact G1]. intros _. reflexivity. }
+    set (c2 := normal_form_2 c1) in *.
+    unfold normal_form_3. destruct (negb (neg c2) && no_sub c2 && negb (no_cats c2)); [|exact G2].
+    destruct (ranges c2) as [|[a0 b0] [|[a1 b1] [|]]] eqn:Er; try exact G2.
+    destruct ((a0 =? 0) && (b0 + 2 =? a1) && (b1 =? max_rune)); [|exact G2].
+    destruct (char_in_categories cat_in (cats c2) (b0 + 1)).
+    - intros _. reflexivity.
+    - intros Ha. cbn in Ha. specialize (G2 Ha). rewrite Er in G2. discriminate.
+  Qed.
+
+  (* a canonical, well-formed list that contains [0, MaxRune] is exactly that range *)
+  Lemma canonical_full rs : wf_ranges rs -> canonical_ranges rs ->
+    (forall ch, valid_rune ch -> mem rs ch = true) -> rs = [(0, max_rune)].
+  Proof.
+    intros Hw Hc Hall. destruct rs as [|[a b] t].
+    - specialize (Hall 0). cbn in Hall. unfold valid_rune, max_rune in Hall. assert (false = true) by (apply Hall; lia). discriminate.
+    - cbn in Hc. destruct Hc as [Hab Hs]. inversion Hw as [|? ? W1 W2]; subst. destruct W1 as (V1 & V2 & V3); cbn [fst snd] in *.
+      assert (Ha : a = 0).
+      { pose proof (Hall 0 ltac:(unfold valid_rune, max_rune; lia)) as H0. rewrite mem_cons in H0.
+        rewrite (sorted_from_mem_false b t 0 Hs) in H0 by lia. unfold in_range in H0; cbn [fst snd] in H0. lia. }
+      subst a.
+      destruct (b =? max_rune) eqn:Eb.
+      + assert (b = max_rune) by lia. subst b. f_equal.
+        destruct t as [|[x y] t']; [reflexivity|]. cbn in Hs. inversion W2 as [|? ? W3 _]; subst. destruct W3 as (U1 & U2 & U3); cbn [fst snd] in *. exfalso; unfold max_rune in *; lia.
+      + pose proof (Hall (b + 1) ltac:(unfold valid_rune; lia)) as H1. rewrite mem_cons in H1.
+        rewrite (sorted_from_mem_false b t (b + 1) Hs) in H1 by lia. unfold in_range in H1; cbn [fst snd] in H1. lia.
+  Qed.
+
+  Definition any_sem (c : cls) : Prop :=
+    anything c = true -> forall ch, valid_rune ch -> mem (ranges c) ch = true.
+
+  Lemma any_inv_sem c : any_inv c -> any_sem c.
+  Proof.
+    intros Hi Ha ch [H1 H2]. rewrite (Hi Ha). unfold mem, in_range; cbn [existsb fst snd]. lia.
+  Qed.
+
+  Lemma canonicalize_any_inv c : any_sem c -> wf_ranges (ranges c) -> any_inv (canonicalize cat_in c).
+  Proof.
+    intros Hi Hw. rewrite canonicalize_unfold. destruct (ranges c) as [|r t] eqn:Er.
+    - intros Ha. specialize (Hi Ha 0). rewrite Er in Hi. cbn in Hi.
+      assert (false = true) by (apply Hi; unfold valid_rune, max_rune; lia). discriminate.
+    - rewrite <- Er in *. apply nf_any_inv.
+      + intros Ha. cbn [anything set_ranges] in Ha. cbn [ranges set_ranges].
+        apply canonical_full; [apply merged_wf; auto|apply merged_canonical; auto|].
+        intros ch Hv. rewrite merged_mem by auto. apply Hi; auto.
+      + cbn [ranges set_ranges]. apply merged_wf; auto.
+  Qed.
+
+  (* add_range_union *)
+  Lemma add_range_top c lo hi ch : wf_ranges (ranges c) -> 0 <= lo -> lo <= hi -> hi <= max_rune -> valid_rune ch ->
+    top_in (add_range cat_in c lo hi) ch = xorb (neg c) (body c ch || ((lo <=? ch) && (ch <=? hi))).
+  Proof.
+    intros Hw H0 H1 H2 Hv. unfold add_range.
+    assert (Hw' : wf_ranges (ranges (set_ranges c (ranges c ++ [(lo, hi)])))).
+    { cbn [ranges set_ranges]. apply wf_ranges_app; auto. apply wf_single; auto. }
+    destruct (canonicalize_same_set _ Hw') as (_ & _ & _ & _ & S5). rewrite S5 by auto.
+    unfold top_in, body; cbn [neg ranges cats set_ranges]. rewrite mem_app.
+    unfold mem at 2, in_range; cbn [existsb fst snd]. rewrite orb_false_r.
+    f_equal. destruct (mem (ranges c) ch), (cats_in (cats c) ch), ((lo <=? ch) && (ch <=? hi)); reflexivity.
+  Qed.
+
+  Lemma add_range_shape c lo hi : wf_ranges (ranges c) -> 0 <= lo -> lo <= hi -> hi <= max_rune ->
+    sub (add_range cat_in c lo hi) = sub c /\ ascii (add_range cat_in c lo hi) = ascii c /\
+    wf_ranges (ranges (add_range cat_in c lo hi)) /\ canonical_ranges (ranges (add_range cat_in c lo hi)) /\
+    (any_inv c -> any_inv (add_range cat_in c lo hi)).
+  Proof.
+    intros Hw H0 H1 H2. unfold add_range.
+    assert (Hw' : wf_ranges (ranges (set_ranges c (ranges c ++ [(lo, hi)])))).
+    { cbn [ranges set_ranges]. apply wf_ranges_app; auto. apply wf_single; auto. }
+    destruct (canonicalize_same_set _ Hw') as (S1 & S2 & S3 & S4 & _).
+    repeat split; auto.
+    intros Hi. apply canonicalize_any_inv; auto.
+    intros Ha ch Hv. cbn [anything set_ranges] in Ha. cbn [ranges set_ranges]. rewrite mem_app.
+    rewrite (any_inv_sem c Hi Ha ch Hv). reflexivity.
+  Qed.
+
+  (* what a canonicalizing mutator guarantees about its result *)
+  Definition mut_ok (c c' : cls) : Prop :=
+    sub c' = sub c /\ ascii c' = ascii c /\ wf_ranges (ranges c') /\ canonical_ranges (ranges c') /\ any_inv c'.
+
+  Lemma canonicalize_mut_ok c : wf_ranges (ranges c) -> any_sem c -> mut_ok c (canonicalize cat_in c).
+  Proof.
+    intros Hw Hs. destruct (canonicalize_same_set c Hw) as (S1 & S2 & S3 & S4 & _).
+    unfold mut_ok. repeat split; auto. apply canonicalize_any_inv; auto.
+  Qed.
+
+  Lemma add_ranges_top c rs ch : any_inv c -> wf_ranges (ranges c) -> wf_ranges rs -> valid_rune ch ->
+    top_in (add_ranges cat_in c rs) ch = xorb (neg c) (body c ch || mem rs ch).
+  Proof.
+    intros Hi Hw Hr Hv. unfold add_ranges. destruct (anything c) eqn:Ea.
+    - rewrite top_in_body. rewrite (any_inv_body c ch Hi Ea Hv). reflexivity.
+    - assert (Hw' : wf_ranges (ranges (set_ranges c (ranges c ++ rs)))) by (cbn [ranges set_ranges]; apply wf_ranges_app; auto).
+      destruct (canonicalize_same_set _ Hw') as (_ & _ & _ & _ & S5). rewrite S5 by auto.
+      unfold top_in, body; cbn [neg ranges cats set_ranges]. rewrite mem_app. f_equal.
+      destruct (mem (ranges c) ch), (cats_in (cats c) ch), (mem rs ch); reflexivity.
+  Qed.
+
+  Lemma add_ranges_ok c rs : any_inv c -> wf_ranges (ranges c) -> canonical_ranges (ranges c) -> wf_ranges rs ->
+    mut_ok c (add_ranges cat_in c rs).
+  Proof.
+    intros Hi Hw Hc Hr. unfold add_ranges. destruct (anything c) eqn:Ea.
+    - unfold mut_ok. auto.
+    - apply (canonicalize_mut_ok (set_ranges c (ranges c ++ rs))).
+      + cbn [ranges set_ranges]; apply wf_ranges_app; auto.
+      + intros Ha. cbn in Ha. congruence.
+  Qed.
+
+  (* addNegativeRanges: the incoming ranges are ascending and end before MaxRune - 1 *)
+  Fixpoint ordered (hi : Z) (rs : list (Z * Z)) : Prop :=
+    hi < max_rune /\
+    match rs with
+    | [] => True
+    | (a, b) :: t => hi <= a /\ a <= b /\ ordered (b + 1) t
+    end.
+
+  Lemma ordered_mem_false rs : forall hi ch, ordered hi rs -> ch < hi -> mem rs ch = false.
+  Proof.
+    induction rs as [|[a b] t IH]; intros hi ch Ho Hc; [reflexivity|].
+    cbn in Ho. destruct Ho as (O0 & O1 & O2 & O3). rewrite mem_cons. unfold in_range; cbn [fst snd].
+    rewrite (IH (b + 1) ch O3) by lia. lia.
+  Qed.
+
+  Lemma negative_ranges_mem rs : forall hi ch, ordered hi rs ->
+    mem (negative_ranges hi rs) ch = (hi <=? ch) && (ch <=? max_rune) && negb (mem rs ch).
+  Proof.
+    induction rs as [|[a b] t IH]; intros hi ch Ho.
+    - cbn in Ho. cbn [negative_ranges]. replace (hi <? max_rune) with true by lia.
+      unfold mem, in_range; cbn [existsb fst snd]. lia.
+    - cbn in Ho. destruct Ho as (O0 & O1 & O2 & O3). cbn [negative_ranges]. rewrite mem_app.
+      rewrite (IH (b + 1) ch O3). rewrite mem_cons. unfold in_range; cbn [fst snd].
+      assert (Hb : b + 1 < max_rune) by (destruct t as [|[x y] t']; cbn in O3; lia).
+      destruct (hi <? a) eqn:E.
+      + unfold mem at 1, in_range; cbn [existsb fst snd].
+        destruct (ch <? b + 1) eqn:E2.
+        * rewrite (ordered_mem_false t (b + 1) ch O3) by lia. lia.
+        * destruct (mem t ch); lia.
+      + unfold mem at 1; cbn [existsb].
+        destruct (ch <? b + 1) eqn:E2.
+        * rewrite (ordered_mem_false t (b + 1) ch O3) by lia. lia.
+        * destruct (mem t ch); lia.
+  Qed.
+
+  Lemma negative_ranges_wf rs : forall hi, 0 <= hi -> ordered hi rs -> wf_ranges (negative_ranges hi rs).
+  Proof.
+    induction rs as [|[a b] t IH]; intros hi H0 Ho.
+    - cbn in Ho. cbn [negative_ranges]. destruct (hi <? max_rune) eqn:E; [|constructor].
+      apply wf_single; lia.
+    - cbn in Ho. destruct Ho as (O0 & O1 & O2 & O3). cbn [negative_ranges]. apply wf_ranges_app.
+      + destruct (hi <? a) eqn:E; [|constructor]. apply wf_single; try lia.
+        assert (b + 1 < max_rune) by (destruct t as [|[x y] t']; cbn in O3; lia). lia.
+      + apply IH; [lia|exact O3].
+  Qed.
+
+  Lemma add_negative_ranges_top c rs ch : any_inv c -> wf_ranges (ranges c) -> ordered 0 rs -> valid_rune ch ->
+    top_in (add_negative_ranges cat_in c rs) ch = xorb (neg c) (body c ch || negb (mem rs ch)).
+  Proof.
+    intros Hi Hw Ho Hv. unfold add_negative_ranges. destruct (anything c) eqn:Ea.
+    - rewrite top_in_body. rewrite (any_inv_body c ch Hi Ea Hv). reflexivity.
+    - pose proof (negative_ranges_wf rs 0 ltac:(lia) Ho) as Hn.
+      assert (Hw' : wf_ranges (ranges (set_ranges c (ranges c ++ negative_ranges 0 rs)))) by (cbn [ranges set_ranges]; apply wf_ranges_app; auto).
+      destruct (canonicalize_same_set _ Hw') as (_ & _ & _ & _ & S5). rewrite S5 by auto.
+      unfold top_in, body; cbn [neg ranges cats set_ranges]. rewrite mem_app. rewrite negative_ranges_mem by auto.
+      destruct Hv as [Hv1 Hv2]. replace ((0 <=? ch) && (ch <=? max_rune)) with true by lia. cbn [andb]. f_equal.
+      destruct (mem (ranges c) ch), (cats_in (cats c) ch), (mem rs ch); reflexivity.
+  Qed.
+
+  Lemma add_negative_ranges_ok c rs : any_inv c -> wf_ranges (ranges c) -> canonical_ranges (ranges c) -> ordered 0 rs ->
+    mut_ok c (add_negative_ranges cat_in c rs).
+  Proof.
+    intros Hi Hw Hc Ho. unfold add_negative_ranges. destruct (anything c) eqn:Ea.
+    - unfold mut_ok. auto.
+    - apply (canonicalize_mut_ok (set_ranges c (ranges c ++ negative_ranges 0 rs))).
+      + cbn [ranges set_ranges]; apply wf_ranges_app; auto. apply negative_ranges_wf; [lia|auto].
+      + intros Ha. cbn in Ha. congruence.
+  Qed.
+
+  Lemma add_range_ok c lo hi : any_inv c -> wf_ranges (ranges c) -> 0 <= lo -> lo <= hi -> hi <= max_rune ->
+    mut_ok c (add_range cat_in c lo hi).
+  Proof.
+    intros Hi Hw H0 H1 H2. destruct (add_range_shape c lo hi Hw H0 H1 H2) as (A & B & C & D & E).
+    unfold mut_ok. split; [exact A|split; [exact B|split; [exact C|split; [exact D|exact (E Hi)]]]].
+  Qed.
+
+  (* add_set_union *)
+  Lemma add_set_top c s ch : any_inv c -> any_inv s -> wf_ranges (ranges c) -> wf_ranges (ranges s) -> valid_rune ch ->
+    top_in (add_set cat_in c s) ch = xorb (neg c) (body c ch || body s ch).
+  Proof.
+    intros Hi His Hw Hws Hv. unfold add_set. destruct (anything c) eqn:Ea.
+    - rewrite top_in_body. rewrite (any_inv_body c ch Hi Ea Hv). reflexivity.
+    - destruct (anything s) eqn:Eas.
+      + rewrite make_anything_top by auto. rewrite (any_inv_body s ch His Eas Hv). rewrite orb_true_r.
+        destruct (neg c); reflexivity.
+      + set (c1 := set_ranges c (ranges c ++ ranges s)).
+        assert (Hi1 : any_inv c1) by (intros Ha; cbn in Ha; congruence).
+        destruct (add_categories_shape c1 (cats s)) as (A & B & C & D & E).
+        assert (Hw1 : wf_ranges (ranges c1)) by (cbn [ranges set_ranges c1]; apply wf_ranges_app; auto).
+        destruct (canonicalize_same_set _ (D Hw1)) as (_ & _ & _ & _ & S5). rewrite S5 by auto.
+        rewrite add_categories_top by auto. cbn [neg set_ranges c1]. f_equal.
+        unfold body; cbn [ranges cats set_ranges c1]. rewrite mem_app.
+        destruct (mem (ranges c) ch), (cats_in (cats c) ch), (mem (ranges s) ch), (cats_in (cats s) ch); reflexivity.
+  Qed.
+
+  (* ---------------------------------------------------------------- singleton reduction *)
+  Lemma is_singleton_spec c : is_singleton c = true ->
+    exists a an asc, c = Cls [(a, a)] [] None false an asc.
+  Proof.
+    destruct c as [rs cs sb ng an asc]. unfold is_singleton, no_cats, no_sub, single_range; cbn [neg cats sub ranges].
+    destruct ng; [discriminate|]. destruct cs; [|discriminate]. destruct sb; [discriminate|].
+    destruct rs as [|[a b] [|]]; try discriminate. cbn. intros H. assert (a = b) by lia. subst b. eauto.
+  Qed.
+
+  Lemma is_singleton_inverse_spec c : is_singleton_inverse c = true ->
+    exists a an asc, c = Cls [(a, a)] [] None true an asc.
+  Proof.
+    destruct c as [rs cs sb ng an asc]. unfold is_singleton_inverse, no_cats, no_sub, single_range; cbn [neg cats sub ranges].
+    destruct ng; [|discriminate]. destruct cs; [|discriminate]. destruct sb; [discriminate|].
+    destruct rs as [|[a b] [|]]; try discriminate. cbn. intros H. assert (a = b) by lia. subst b. eauto.
+  Qed.
+
+  Lemma reduce_set_sound c r : bitmaps_ok c -> reduce_set c = Ok r ->
+    forall ch, reduced_in cat_in r ch = char_in cat_in c ch.
+  Proof.
+    intros Hb Hr ch. unfold reduce_set in Hr.
+    destruct (is_singleton c) eqn:E1.
+    - destruct (is_singleton_spec c E1) as (a & an & asc & ->). cbn in Hr. injection Hr as <-.
+      destruct (lookup_agree (Cls [(a, a)] [] None false an asc)) with (ch := ch) as [_ H2]; [cbn; auto with zarith|exact Hb|].
+      rewrite H2. cbn [reduced_in plain_in]. unfold mem, cats_in, in_range; cbn [existsb fst snd]. lia.
+    - destruct (is_singleton_inverse c) eqn:E2.
+      + destruct (is_singleton_inverse_spec c E2) as (a & an & asc & ->). cbn in Hr. injection Hr as <-.
+        destruct (lookup_agree (Cls [(a, a)] [] None true an asc)) with (ch := ch) as [_ H2]; [cbn; auto with zarith|exact Hb|].
+        rewrite H2. cbn [reduced_in plain_in]. unfold mem, cats_in, in_range; cbn [existsb fst snd]. lia.
+      + injection Hr as <-. reflexivity.
+  Qed.
+
 End Proofs.
